@@ -759,6 +759,21 @@ func main() {
 				// checksummed but semantically invalid (wrong variant / bad length / bad padding / version)
 				if ver <= 31 {
 					d := append([]int{ver}, to5(prog, true)...)
+					if s == "" && len(hrp)+7+len(d) <= 90 {
+						// the RIGHT checksum variant for this version, so only the program length (0, 1, 41; v0: not
+						// 20/32) or the version (17) is wrong: the "out-of-range program length" clause
+						k := "checksummed-bad-length"
+						if ver > 16 {
+							k = "checksummed-bad-version"
+						} else if ver == 0 && l >= 2 && l <= 40 {
+							k = "checksummed-bad-length-v0"
+						}
+						bs := encodeRaw(hrp, d, ver != 0)
+						checkAddr(k, bs)
+						if g.Chance(1, 4) {
+							checkAddr(k+"-upper", strings.ToUpper(bs))
+						}
+					}
 					if len(hrp)+7+len(d) <= 90 {
 						checkAddr("checksummed-wrong-variant", encodeRaw(hrp, d, ver == 0))
 						if l > 0 && g.Chance(1, 2) {
